@@ -17,6 +17,8 @@ fn std_dir() -> PathBuf {
 pub fn expand() -> Result<(), PathError> {
     let std_dir = std_dir();
 
+    #[cfg(all(feature = "verif", not(target_family = "wasm")))]
+    veryl_path::sim::point("std.exists", &std_dir)?;
     if std_dir.exists() {
         return Ok(());
     }
@@ -47,6 +49,8 @@ pub fn expand() -> Result<(), PathError> {
                 fs::create_dir_all(parent)?;
             }
 
+            #[cfg(all(feature = "verif", not(target_family = "wasm")))]
+            veryl_path::sim::write_point("std", &path, content.data.as_ref())?;
             fs::write(&path, content.data.as_ref())?;
         }
         Ok(())
@@ -56,6 +60,8 @@ pub fn expand() -> Result<(), PathError> {
         return Err(x);
     }
 
+    #[cfg(all(feature = "verif", not(target_family = "wasm")))]
+    veryl_path::sim::point("std.publish", &std_dir)?;
     if let Err(x) = fs::rename(&staging, &std_dir) {
         let _ = fs::remove_dir_all(&staging);
         // Another process published the same (content-addressed) library first.
